@@ -8,6 +8,14 @@ fn usage() -> ! {
 }
 
 fn main() {
+	// the checks hold many sockets at once (hook collectors, mock CAs, connection bursts): use what the hard limit allows
+	unsafe {
+		let mut l = libc::rlimit { rlim_cur: 0, rlim_max: 0 };
+		if libc::getrlimit(libc::RLIMIT_NOFILE, &mut l) == 0 && l.rlim_cur < l.rlim_max {
+			l.rlim_cur = l.rlim_max;
+			libc::setrlimit(libc::RLIMIT_NOFILE, &l);
+		}
+	}
 	let args: Vec<String> = std::env::args().collect();
 	if args.len() < 3 {
 		usage();
